@@ -1,0 +1,18 @@
+//go:build verif
+
+// Package verifhook exposes observation points used by the out-of-tree
+// verification harness. It is only active when built with `-tags verif`.
+package verifhook
+
+// Enabled reports whether hooks are compiled in.
+const Enabled = true
+
+// Sink receives every emitted event. It is set by the harness.
+var Sink func(site string, args ...any)
+
+// Emit forwards an event to the sink, if any.
+func Emit(site string, args ...any) {
+	if Sink != nil {
+		Sink(site, args...)
+	}
+}
